@@ -365,6 +365,23 @@ def recover_and_check(workload, state, root):
                 fails.append(f"{tag}: {mid} stored afterwards is not retrieved intact: {'; '.join(diffs)}")
         except BaseException as e:
             fails.append(f"{tag}: {mid} stored afterwards cannot be retrieved: {type(e).__name__}: {str(e)[:120]}")
+    # the crashed model itself: storing it again may be refused (pending transaction), but if the store returns normally the
+    # entry must then be complete - a torn first attempt must not be published as committed
+    if crashed_mid is not None:
+        name = "again_" + crashed_mid
+        try:
+            ctx.store_model_entry(ModelEntry.create(model=M[crashed_mid].replace(name=name, description="again")))
+            stored = True
+        except BaseException:
+            stored = False
+        if stored:
+            try:
+                me = ctx.retrieve_model_entry(name)
+                diffs = equivalent(me.model, M[crashed_mid], name, "again")
+                if diffs:
+                    fails.append(f"{tag}: {crashed_mid} stored again after the crash is acknowledged but not retrieved intact: {'; '.join(diffs)}")
+            except BaseException as e:
+                fails.append(f"{tag}: {crashed_mid} stored again after the crash is acknowledged but cannot be retrieved: {type(e).__name__}: {str(e)[:120]}")
     # log still usable
     try:
         ctx.log_info("post-crash message")
